@@ -11,7 +11,7 @@ From Coq Require Import ZArith List Bool Lia.
 From EC Require Import Lib.Outcome Lib.ListW Model.Msgs Model.Replica Model.ReplicaRun Model.Protocol
   Model.ProtocolSync Proofs.ReplicaLive Proofs.ProtocolRefinesExec Proofs.ProtocolRefinesExample
   Proofs.ProtocolLive Proofs.ProtocolLiveInv Proofs.ProtocolLiveExample
-  Proofs.ProtocolLiveCatch Proofs.ProtocolLiveGoals.
+  Proofs.ProtocolLiveCatch Proofs.ProtocolLiveNoStop Proofs.ProtocolLiveGoals.
 From EC Require Proofs.ReplicaCaches Proofs.ReplicaJustified.
 Import ListNotations.
 Open Scope Z_scope.
@@ -227,6 +227,53 @@ Theorem C06G_round_end : forall P, params_ok P -> forall pay s k B Bv,
 Proof. exact round_end. Qed.
 Print Assumptions C06G_round_end.
 
+(* honest nodes do not stop (Panic / RBlocked / RInternal) during a synchronous suffix with
+   arithmetic headroom: for every number of rounds R, at the end of each of the first R rounds
+   every honest node is running *)
+Theorem C06G_no_stop : forall R P pay, params_ok P -> env_ok P pay -> forall s, preach P s ->
+  headroom P s (Z.of_nat R + 2) ->
+  forall r k, (1 <= r <= R)%nat -> honestb P k = true -> up (sync_rounds P pay r s) k.
+Proof. exact no_stop_holds. Qed.
+Print Assumptions C06G_no_stop.
+
+Theorem C06G_headroom_unfold : forall P s B,
+  headroom P s B <->
+  ((forall k, honestb P k = true -> p_first P + dview s k + B < U64.U64) /\
+   (forall m, In m (g_soup s) -> msg_view (m_msg m) + B < U64.U64)).
+Proof. exact (fun P s B => iff_refl _). Qed.
+Print Assumptions C06G_headroom_unfold.
+
+(* (b), exact form: within three synchronous rounds every running honest node reaches the view
+   any honest node was running in at the start *)
+Theorem C06G_catch_up : forall P pay, params_ok P -> env_ok P pay -> forall s, preach P s ->
+  headroom P s 5 ->
+  forall h k, honestb P h = true -> honestb P k = true -> up s h -> up (sync_rounds P pay 3 s) k ->
+  hview s h <= hview (sync_rounds P pay 3 s) k.
+Proof. exact catch_up_holds. Qed.
+Print Assumptions C06G_catch_up.
+
+(* the three ingredients of no_stop *)
+(* cached proposals are never ahead of the block store, in every reachable state *)
+Theorem C06G_cache_below_store : forall P s, 0 <= p_first P -> preach P s -> forall k,
+  CLI (n_live (g_node s k)) /\ DLI (n_dur (g_node s k)) (r_store_next (n_live (g_node s k))).
+Proof. exact preach_NC. Qed.
+Print Assumptions C06G_cache_below_store.
+
+(* a verifying certificate without forged signatures certifies a block number <= first + view *)
+Theorem C06G_cert_number_bound : forall P, params_ok P -> forall s q,
+  preach P s -> ProtocolRefinesStep.gq (pcfg P 0) (honestb P) (g_soup s) q ->
+  hnum (cprop (qmsg q)) <= p_first P + vnum (cview (qmsg q)).
+Proof. exact gq_number_bound. Qed.
+Print Assumptions C06G_cert_number_bound.
+
+(* with headroom on the numbers it increments, in a state satisfying the reachable-state
+   invariants, no handler invocation stops *)
+Theorem C06G_handler_no_stop : forall cfg s i,
+  cchk cfg = true -> ReplicaCaches.cache_inv cfg s -> just_ok s -> CLI s -> arith_ok cfg i ->
+  stopsA (snd (rstep_t cfg s i)) = false.
+Proof. exact rstep_t_nostop. Qed.
+Print Assumptions C06G_handler_no_stop.
+
 (* (d) as first stated is false of the model *)
 Theorem C06G_aligned_view_commits_4_refuted : ~ C06_aligned_view_commits 4.
 Proof. exact aligned_view_commits_refuted. Qed.
@@ -242,6 +289,12 @@ Example C06G_example_catch_up_hyps :
   (forall k, honestb ex_P k = true -> up s k).
 Proof. exact ex_catch_up_hyps. Qed.
 Print Assumptions C06G_example_catch_up_hyps.
+
+Example C06G_example_headroom :
+  headroom ex_P (ginit ex_P) 5 /\ env_ok ex_P ex_pay /\
+  (forall k, honestb ex_P k = true -> up (ginit ex_P) k).
+Proof. exact ex_headroom. Qed.
+Print Assumptions C06G_example_headroom.
 
 Example C06G_example_rounds :
   env_ok ex_P ex_pay /\ preach ex_P (sync_rounds ex_P ex_pay 5 (ginit ex_P)) /\
@@ -274,10 +327,8 @@ Print Assumptions C06G_example_byz_leader.
 (* ================================================================== *)
 (* NOT PROVED: the remaining statements of C06 (definitions in Proofs/ProtocolLiveGoals.v)  *)
 (* ================================================================== *)
-(* (b) in the exact form: follows from C06G_catch_up_three_rounds and C06_no_stop *)
-Definition C06_catch_up := ProtocolLiveGoals.C06_catch_up.
-(* honest nodes do not stop during a synchronous suffix with headroom *)
-Definition C06_no_stop := ProtocolLiveGoals.C06_no_stop.
+(* (b) and no_stop are proved above: C06G_catch_up = ProtocolLiveGoals.C06_catch_up 3,
+   C06G_no_stop = forall R, ProtocolLiveGoals.C06_no_stop R *)
 (* (c) alignment *)
 Definition C06_sync_rounds_align := ProtocolLiveGoals.C06_sync_rounds_align.
 (* (d) first statement: refuted above for R = 4; corrected statement with a notified leader *)
